@@ -62,9 +62,10 @@ theorem evaluate_err_false (re : RegexOracle) (e : Expr) (o : Opts) (d : Any) (b
     map key types formerly answered `unmodelled` are modelled, the model shows what the library
     really does: on a map keyed by a pointer type that leads to an array of an uncomparable element
     type (`map[*[1][]int]V`) EVERY lookup panics inside `mapstructure.decodeArray`, and `Evaluate`
-    with it (observed on the real code; finding F12).  `Props/C09Keys.lean` says exactly when:
-    `getStep_panic`, `getMap_panic_iff`, and `getNoPanic_of_keysSafe` discharges this hypothesis for
-    a datum without such key types. -/
+    with it (observed on the real code; finding F12).  `Props/C09Keys.lean` / `Proofs/Keys.lean` say
+    exactly when: `getMap_panic_iff` (the key type alone decides, `decodePanics`), `getStep_panic` (a
+    step panics only at such a map), `decodePanics_of_ptrFree` (never without a pointer in the key
+    type). -/
 abbrev GetNoPanic (d : Any) : Prop := Bexpr.Proofs.Total.GetNoPanic d
 
 /-- 2. `evaluate` never panics on a parser-shaped expression, a well-formed datum on which the
@@ -265,7 +266,7 @@ example : evaluate re0 (.match_ ⟨.bexpr, [[83], [65]]⟩ .equal (some [55])) o
     = .val true := by decide
 
 /-- the conclusion of the theorem on this datum, by evaluation (the theorem itself is instantiated
-    in `Props/C09Keys.lean`, where `GetNoPanic` is discharged structurally) -/
+    for `execute_no_panic` below, where `GetNoPanic` is discharged by computing `Get`) -/
 example : evaluate re0 eIn opts0 sdatum ≠ .panic := by decide
 
 /-! On the map datum the key lookup goes through `keyEq` (well-founded recursion, irreducible
